@@ -23,6 +23,7 @@ fn alphabet(property: &str) -> (Idx, Vec<Op>) {
         (
             Idx {
                 age_opt: true,
+                opt_opt2: true,
                 emb: false,
                 ..Idx::ALL
             },
@@ -57,6 +58,7 @@ fn alphabet(property: &str) -> (Idx, Vec<Op>) {
                 Op::Remove(2),
                 Op::SaveExt(2),
                 Op::RemoveExt,
+                Op::SetExtSync(3),
             ],
         )
     }
@@ -99,7 +101,10 @@ fn one_execution(idx: Idx, ops: &[Op], ch: &mut Chooser) -> ExecVerdict {
         RunEnd::AllDone => {
             let start = &conc::preloaded(idx).model;
             match conc::linearize(&live, &coll, idx, start, ops, &out) {
-                Ok(order) => conc::check_flush_snapshot(idx, start, ops, &out, &order).into_iter().next(),
+                Ok(order) => conc::check_flush_snapshot(idx, start, ops, &out, &order)
+                    .into_iter()
+                    .chain(conc::check_final_durability(&live, &coll, idx, start, ops, &out, &order))
+                    .next(),
                 Err(why) => Some((
                     "not-linearizable".to_string(),
                     format!(
